@@ -13,6 +13,9 @@ CLAIMED = {
  "C02": ("runtime post-condition monitor on every to_code_data call, compared with CPython's own readers (dis.get_instructions, PyCode_Addr2Line, co_lines)",
          "Every decoded code object at every nesting level is compared instruction by instruction with the same interpreter's disassembler (opname, operand class and value, jump kind and target block) and line reader. The encoder is never involved, so a shared encoder/decoder error cannot hide. Held = no disagreement on the instructions observed.",
          "Trusts dis, PyCode_Addr2Line and co_lines as the reference reading; oparg wrap at INT_MAX modelled as in the eval loop.", "5/C02"),
+ "C03": ("post-condition monitor on every from_code_data call reading the emitted code back with CPython's own readers (dis, PyCode_Addr2Line, _PyCode_ConstantKey), logical step counter on _instrsize bounding the encoder's relaxation loop, and decode-again comparison; workloads: hand-built well-formed graphs (W5) and edited decoded data (W6)",
+         "W5: seeded generator of well-formed CodeData without private overrides (opcodes and operand kinds from the interpreter's dis tables; block counts/sizes straddling the 1/2/3-unit operand boundaries incl. 32k/65k-instruction blocks; absolute jumps both directions, forward relative jumps; tables up to 70 000 entries; lines incl. None and +-boundary deltas; all Args shapes; CPython-distinct constant families; canonical and non-canonical partitions). W6: decoded real code + edit (NOP runs up to 70 000 before a jump target, duplicate/drop instruction, drop additional args, shift/collide overrides incl. ==-equal but distinct constants, retarget jump, clear lines, append block). Every emitted code object must read back as the data says (operands inside their tables resolving to the named values, jumps on the first prefix of the target block, line per instruction, header); raising is accepted only for edits that can make overrides inconsistent; termination is a logical step budget, never wall-clock.",
+         "None lines on <=3.9 are accepted as 'inherits the previous line'; the generator never emits opcodes/operands dis cannot render.", "5/C03"),
  "C04": ("runtime post-condition monitor on every to_code_data call; reference = CPython's argument binder (calling a stub with the same header), inspect.signature, __doc__, inspect.is*function; exhaustive signature-shape sweep",
          "For every function-like code object the decoded Args are used to *call* a stub with the same header (positive calls must bind each marker to the right slot, forbidden calls must raise TypeError), and compared with inspect.signature, __doc__ and inspect's kind predicates; non-function code must decode with type None. The signature shapes (0..2/0..3 of each parameter kind x */** x 7 scope kinds x 7 docstring shapes) are enumerated exhaustively in addition to the corpora.",
          "Trusts CPython's binder and inspect; the stub reproduces only the header of the code object.", "5/C04"),
@@ -22,6 +25,9 @@ CLAIMED = {
  "C05": ("post-condition monitor on the outermost to_code_data call (normalize + real to_code, then symbolic dis/Addr2Line stream, header and line-event-window comparison, recursively) + behavioural oracle: generated programs executed (original and normalized) in a child process under sys.settrace",
          "Static: every code object of the workloads: same opnames, same resolved operands (names, locals, cell/free names, type- and bit-exact constants, nested code paired by instruction order), same jump structure (target instruction index, kind), same line per instruction, same header (signature, __doc__ slot, freevars, name, filename, first line, stacksize, flags modulo NESTED/NOFREE), cell variables only removed, NOFREE only gained when a cell vanished, same line-event windows (CPython's own _PyCode_CheckLineNumber on 3.7-3.9, merged co_lines on 3.10). Behavioural: stdout, exception and the full (code name, event, line) trace of generated terminating programs agree.",
          "Window differences at unreachable instructions are counted, not judged; executed programs are the generator's own; 30 s watchdog => inconclusive.", "5/C05"),
+ "C06": ("API-boundary history monitor walking the exhaustive tree of histories over {code round trip, JSON round trip, normalize} + independently constructed serialization variants (own re-assembler) whose normal forms must coincide",
+         "Histories: every sequence over {C, J, N} up to length 3 (quick) / 4 (thorough) plus random histories up to length 12; after every step normalize(x) must equal the base normal form (==, hash, canonical JSON) and be idempotent. Variants: for every code object, harness-built variants (tables permuted with operands renumbered, unreferenced padding entries in all four tables, CO_NESTED toggled, redundant EXTENDED_ARG prefixes on jumps with full re-layout and a regenerated line table) are first checked to be faithful by an independent symbolic reading, then must normalize to equal data.",
+         "Variants never move a function's constant 0 or the parameter prefix; unfaithful variants (harness bugs) are discarded and counted.", "5/C06"),
  "C07": ("runtime post-condition monitor on code_data_to_json (strict-JSON walk + in-process schema validation), real json text cycle, and offline validation of every recorded document by jsonschema (Draft 7 + 2020-12), fastjsonschema and an orjson cycle",
          "Every decoded and normalized CodeData of the workloads (corpus programs plus W9: constants over type x nesting x edge values planted as operands, unreferenced constants, docstring, filename, name, global/local/cell/free variable names) is serialized under the monitor, dumped with allow_nan=False as ASCII and UTF-8 text, parsed, loaded and compared (==, NaN-identifying strict code comparison); all documents are re-validated offline by three independent JSON/schema implementations.",
          "Trusts json/orjson/jsonschema/fastjsonschema; ints bounded at 4000 digits; jsonschema (slow) only sees documents below a size cap, fastjsonschema and the in-process validator see all.", "5/C07"),
